@@ -19,6 +19,7 @@ package main
 // closures) is not replayed and the VIOLATION line keeps its no-failing-input-found suffix.
 
 import (
+	"math/big"
 	"context"
 	"encoding/json"
 	"fmt"
@@ -389,7 +390,16 @@ func parseValues(out string, n int) ([]int64, bool) {
 			if err != nil {
 				u, err2 := strconv.ParseUint(v, 10, 64)
 				if err2 != nil {
-					return nil, false
+					// an unconstrained integer may get an arbitrarily large value in the model; what
+					// matters for building inputs is only that the value is reproducible
+					b, ok := new(big.Int).SetString(v, 10)
+					if !ok {
+						if os.Getenv("GOVC_DEBUG") != "" {
+							fmt.Fprintf(os.Stderr, "replay: unreadable model value %q\n", v)
+						}
+						return nil, false
+					}
+					u = new(big.Int).Mod(b, new(big.Int).Lsh(big.NewInt(1), 62)).Uint64()
 				}
 				x = int64(u)
 			}
@@ -440,6 +450,12 @@ func replayObligation(r *Run, dir string, o *Obligation) (string, bool) {
 		}
 		results = append(results, b.build(rt.At(i).Type(), cells, memOut, 0, true))
 	}
+	if o.Kind == "nopanic" {
+		// the panic obligation sits in the middle of the function: only the inputs are defined in its
+		// query (the final memory is not), and only the inputs are needed -- the replay is confirmed
+		// when the real call panics
+		finals, results = nil, nil
+	}
 	if b.err != "" {
 		return note("no replay: " + b.err + " is outside the supported input shapes")
 	}
@@ -475,6 +491,10 @@ func replayObligation(r *Run, dir string, o *Obligation) (string, bool) {
 		return note("no replay: the solver did not reproduce its model")
 	}
 	vals, ok := parseValues(string(outb), len(terms))
+	if !ok && os.Getenv("GOVC_DEBUG") != "" {
+		os.WriteFile(filepath.Join(os.TempDir(), "govc_replay_values.txt"), outb, 0o644)
+		fmt.Fprintf(os.Stderr, "replay: %d terms requested, output kept in govc_replay_values.txt\n", len(terms))
+	}
 	if !ok {
 		return note("no replay: could not read the model values")
 	}
